@@ -298,8 +298,13 @@ def add_control_target_to_dag(circuit):
         label = edge[2]
 
         while next_node not in circuit.node_dict["Output"]:
+            # role (control / target / none) of this register at both ends of the edge
+            source_role = _create_edge_control_target_attr(op, reg_type, register)
             op = circuit.dag.nodes[next_node]["op"]
-            control_target = _create_edge_control_target_attr(op, reg_type, register)
+            control_target = (
+                source_role,
+                _create_edge_control_target_attr(op, reg_type, register),
+            )
             circuit.dag[node][next_node][label]["control_target"] = control_target
 
             node = next_node
@@ -308,7 +313,10 @@ def add_control_target_to_dag(circuit):
             next_node = edge[1]
             label = edge[2]
 
-        control_target = _create_edge_control_target_attr(op, reg_type, register)
+        control_target = (
+            _create_edge_control_target_attr(op, reg_type, register),
+            None,
+        )
         circuit.dag[node][next_node][label]["control_target"] = control_target
 
 
